@@ -738,6 +738,14 @@ func TestFromFiles(t *testing.T) {
 		{"a.p": "# head\n\nuse(\"a.p\")  \n\n", "b.ppl": "\n \t\n", "c.p": "\n\n\nuse(\"b.ppl\")\nuse(\"missing.p\")"},
 		{"a.p": "x = \"\"\"\n text \n\"\"\"  \n\n", "b.p": "\n"},
 	}
+	// an interpreter line at the top (a comment to the language, part of the file); files larger than a mebibyte whose
+	// use calls and last statement lie behind that mark
+	filler := strings.Repeat("# filler line of a long generated header .............\n", 21000) // about 1.1 MiB
+	sets = append(sets,
+		map[string]string{"a.p": "#!/usr/bin/env platypus\n\nuse(\"b.p\")\nnosuch()\n", "b.p": "#! interpreter\nadd_key(b, 1)"},
+		map[string]string{"a.p": "#!x\nuse(\"a.p\")", "b.p": "#!\n#!\n  use(\"missing.p\")"},
+		map[string]string{"big.p": filler + "use(\"missing.p\")\n", "user.p": "use(\"big.p\")", "late.p": filler + "x = \"a string that ends behind the mark\"\nuse(\"b.p\")\n", "b.p": "add_key(b, 1)"},
+	)
 	n := 0
 	for si, set := range sets {
 		dir, err := os.MkdirTemp("", "c09files")
